@@ -428,6 +428,7 @@ def QCall (q : List Nat) : Sys → Prop
   | .mkstemp p _ | .unlinkTmp p => Fam q (tmpName p)
   | .renameTmp p | .symlink _ p => p = q ∧ Fam q q ∧ Fam q (tmpName q)
   | .link _ _ | .chmod _ _ | .dUnlink _ | .dOpenDir _ => False
+  | .chdir _ | .rOpenCwd | .rFchdir | .rClose => False      -- edit_deep_directories: pathnames ≥ PATH_MAX only
 
 theorem sem_exec {c : Ctx} {q : List Nat} {pr : Proc} (hS : Sem c q pr) (s : Sys) (hq : QCall q s) :
     Sem c q (exec s pr).2 := by
@@ -472,5 +473,9 @@ theorem sem_exec {c : Ctx} {q : List Nat} {pr : Proc} (hS : Sem c q pr) (s : Sys
   | chmod _ _ => exact absurd hq (by simp [QCall])
   | dUnlink _ => exact absurd hq (by simp [QCall])
   | dOpenDir _ => exact absurd hq (by simp [QCall])
+  | chdir _ => exact absurd hq (by simp [QCall])
+  | rOpenCwd => exact absurd hq (by simp [QCall])
+  | rFchdir => exact absurd hq (by simp [QCall])
+  | rClose => exact absurd hq (by simp [QCall])
 
 end LA.FS
